@@ -2,7 +2,7 @@
 C04 — Vendor text and config trees round-trip for every supported vendor.
 
 Property theorems only; helper lemmas live in `Lemmas/FormatSplit*.lean`, the model in
-`Model/FormatSplit.lean` (+ `Model/Offside.lean`), the domains `WF` / `WFfull` and the statements
+`Model/FormatSplit.lean` (+ `Model/Offside.lean`), the domain `WF` (= `WFfull`) and the statements
 `RoundTrip` / `FixPoint` in `Spec/FormatSplit.lean`.
 
   RoundTrip f t  :=  ∃ s, join f t = some s ∧ parse f s = some (.ok t)
@@ -19,13 +19,13 @@ Annet.FormatSplit.C04_common_roundtrip
 Annet.FormatSplit.C04_juniper_roundtrip
 Annet.FormatSplit.C04_ribbon_roundtrip
 Annet.FormatSplit.C04_nokia_roundtrip
-Annet.FormatSplit.C04_cisco_roundtrip_false
-Annet.FormatSplit.C04_cisco_roundtrip_partial
-Annet.FormatSplit.C04_ros_roundtrip_false
-Annet.FormatSplit.C04_ros_roundtrip_partial
+Annet.FormatSplit.C04_cisco_roundtrip
+Annet.FormatSplit.C04_ros_roundtrip
 Annet.FormatSplit.C04_roundtrip_every_vendor
 Annet.FormatSplit.C04_fixpoint
 Annet.FormatSplit.C04_parsed_text_roundtrip
+Annet.FormatSplit.C04_cisco_old_rule_false
+Annet.FormatSplit.C04_ros_old_rule_false
 -/
 
 namespace Annet.FormatSplit
@@ -74,60 +74,29 @@ theorem C04_nokia_roundtrip (kw : Option Str) (hkw : IndentOk kw) (t : Cfg)
   rw [e]
   exact Lemmas.roundtrip_WF _ w hw t h
 
-/-- Cisco at FULL strength (rows are words, none is `exit` / `exit-address-family`): -/
-def C04_cisco_roundtrip : Prop :=
-  ∀ t : Cfg, WFfull .cisco t = true → RoundTrip (mkFormatter .cisco none) t
-
-/-- … is FALSE of the code (F04a).  Witness: `address-family a` followed by a sibling `c`: `join`
-prints `address-family a\nc`, `split` re-indents `c`, the parser files `c` under `address-family a`. -/
-theorem C04_cisco_roundtrip_false : ¬ C04_cisco_roundtrip := by
-  intro hall
-  obtain ⟨s, hj, hp⟩ := hall Lemmas.ciscoWitness (by decide)
-  have hs : s = commonJoin [' ', ' '] Lemmas.ciscoWitness := by
-    simp only [mkFormatter, join, Option.some.injEq] at hj
-    exact hj.symm
-  rw [hs, Lemmas.ciscoWitness_parse] at hp
-  simp only [Option.some.injEq, Except.ok.injEq, Lemmas.ciscoWitness] at hp
-  injection hp with hp
-  injection hp with _ h2
-  simp at h2
-
-/-- Cisco, PARTIAL: no row starts with `address-family`. -/
-theorem C04_cisco_roundtrip_partial (kw : Option Str) (hkw : IndentOk kw) (t : Cfg)
+/-- Cisco, at full strength: rows are words (no double blank), none is the formatter's own delimiter
+`exit-address-family`; rows starting with `address-family` are ordinary rows, at any depth, followed by
+anything.  (`split` shifts an `address-family` section only when an `exit-address-family` line closes
+it at the same indent — `join` of such a tree never prints one.) -/
+theorem C04_cisco_roundtrip (kw : Option Str) (hkw : IndentOk kw) (t : Cfg)
     (h : WF .cisco t = true) : RoundTrip (mkFormatter .cisco kw) t := by
   obtain ⟨w, hw, e⟩ := Lemmas.mkFormatter_blanks .cisco kw hkw
   rw [e]
   exact Lemmas.roundtrip_WF _ w hw t h
 
-/-- RouterOS at FULL strength (top level: sections; in a section: leaf rows, then sub-sections): -/
-def C04_ros_roundtrip : Prop :=
-  ∀ t : Cfg, WFfull .ros t = true → RoundTrip (mkFormatter .ros none) t
-
-/-- … is FALSE of the code (F04b).  Witness: `{ip: {address: {r}}}`: `join` prints `/ip`, `/address`
-(not `/ip address`), which parses to `{ip: {}, address: {r}}`. -/
-theorem C04_ros_roundtrip_false : ¬ C04_ros_roundtrip := by
-  intro hall
-  obtain ⟨s, hj, hp⟩ := hall Lemmas.rosWitness (by decide)
-  have hs : s = rosJoin [' ', ' '] Lemmas.rosWitness := by
-    simp only [mkFormatter, join, Option.getD_none, Option.some.injEq] at hj
-    exact hj.symm
-  rw [hs, Lemmas.rosWitness_parse] at hp
-  simp only [Option.some.injEq, Except.ok.injEq, Lemmas.rosWitness] at hp
-  injection hp with hp
-  injection hp with _ h2
-  simp at h2
-
-/-- RouterOS, PARTIAL: sections of depth one (any number of sections and rows). -/
-theorem C04_ros_roundtrip_partial (kw : Option Str) (hkw : IndentOk kw) (t : Cfg)
+/-- RouterOS, at full strength: the top level holds sections; a section holds leaf rows, then
+sub-sections, to any depth.  `join` prints `/path words` for every section, `split` announces the whole
+path again one word per line, and the parser merges the repeated ancestors. -/
+theorem C04_ros_roundtrip (kw : Option Str) (hkw : IndentOk kw) (t : Cfg)
     (h : WF .ros t = true) : RoundTrip (mkFormatter .ros kw) t := by
   obtain ⟨w, hw, e⟩ := Lemmas.mkFormatter_blanks .ros kw hkw
   rw [e]
   exact Lemmas.roundtrip_WF _ w hw t h
 
 /-- The property in its own shape: for EVERY vendor name of the registry, every tree of that vendor's
-(proved) domain, every admissible indent: `parse_to_tree(join(t), split) == t`. -/
+whole well-formed domain, every admissible indent: `parse_to_tree(join(t), split) == t`. -/
 theorem C04_roundtrip_every_vendor (vendor : String) (k : Kind) (_hv : kindOf vendor = some k)
-    (kw : Option Str) (hkw : IndentOk kw) (t : Cfg) (h : WF k t = true) :
+    (kw : Option Str) (hkw : IndentOk kw) (t : Cfg) (h : WFfull k t = true) :
     RoundTrip (mkFormatter k kw) t := by
   obtain ⟨w, hw, e⟩ := Lemmas.mkFormatter_blanks k kw hkw
   rw [e]
@@ -135,7 +104,7 @@ theorem C04_roundtrip_every_vendor (vendor : String) (k : Kind) (_hv : kindOf ve
 
 /-- Second clause: for the text `s = join(t)`, `join(parse(s)) = s` — for every vendor, on the same domain. -/
 theorem C04_fixpoint (vendor : String) (k : Kind) (hv : kindOf vendor = some k)
-    (kw : Option Str) (hkw : IndentOk kw) (t : Cfg) (h : WF k t = true) :
+    (kw : Option Str) (hkw : IndentOk kw) (t : Cfg) (h : WFfull k t = true) :
     FixPoint (mkFormatter k kw) t :=
   Lemmas.fixpoint_of_roundtrip _ t (C04_roundtrip_every_vendor vendor k hv kw hkw t h)
 
@@ -154,6 +123,38 @@ theorem C04_parsed_text_roundtrip (text : Str) (kw kw' : Option Str) (hkw' : Ind
     simp only [WF, e]
     exact hwf
   exact C04_common_roundtrip .common (Or.inl rfl) kw' hkw' t hWF
+
+/-- The Cisco rule as it was before fix 13137d1 (`ciscoSplitOld`: EVERY `address-family` row shifts what
+follows) did NOT round-trip on this domain: `[address-family a, c]` came back as `{address-family a: {c}}`. -/
+theorem C04_cisco_old_rule_false :
+    ¬ ∀ t : Cfg, WF .cisco t = true →
+      parseToTree comments ((ciscoSplitOld (commonJoin (blanks 2) t)).map String.ofList) = .ok t := by
+  intro hall
+  have hp := hall Lemmas.ciscoWitness (by decide)
+  have e : blanks 2 = [' ', ' '] := rfl
+  rw [e, Lemmas.ciscoWitness_old_parse] at hp
+  simp only [Except.ok.injEq, Lemmas.ciscoWitness] at hp
+  injection hp with hp
+  injection hp with _ h2
+  simp at h2
+
+/-- The RouterOS rule as it was before fix c926070 (`rosJoinOld`: sub-section prefix taken from
+`context.parent.row`) did NOT round-trip: `{ip: {address: {r}}}` was printed `/ip`, `/address` and came
+back as `{ip: {}, address: {r}}`. -/
+theorem C04_ros_old_rule_false :
+    ¬ ∀ t : Cfg, WF .ros t = true →
+      ∃ ls, rosSplit (blanks 2) (rosJoinOld (blanks 2) t) = some ls ∧
+        parseToTree comments (ls.map String.ofList) = .ok t := by
+  intro hall
+  obtain ⟨ls, hs, hp⟩ := hall Lemmas.rosWitness (by decide)
+  have e : blanks 2 = [' ', ' '] := rfl
+  rw [e, Lemmas.rosWitness_old_split] at hs
+  simp only [Option.some.injEq] at hs
+  rw [← hs, Lemmas.rosWitness_old_parse] at hp
+  simp only [Except.ok.injEq, Lemmas.rosWitness] at hp
+  injection hp with hp
+  injection hp with _ h2
+  simp at h2
 
 /-! ## Non-vacuity -/
 
@@ -181,14 +182,23 @@ private def sampleJ : Cfg :=
 example : WF .juniper sampleJ = true := by decide
 example : WF .ribbon sampleJ = true := by decide
 example : WF .nokia sampleJ = true := by decide
-/-- RouterOS: two sections with rows -/
+/-- RouterOS: nested sections (`/ip address`, `/ip address x`), leaves before sub-sections -/
 private def sampleR : Cfg :=
-  .mk [("ip", .mk [leaf "add address=10.0.0.1/24 interface=ether1", leaf "set x=1"]), ("user", .mk [leaf "add name=x"])]
+  .mk [("ip", .mk [leaf "add address=10.0.0.1/24 interface=ether1",
+         ("address", .mk [leaf "set x=1", ("x", .mk [leaf "q"])]), ("route", .mk [leaf "add gateway=10.0.0.254"])]),
+       ("user", .mk [("aaa", .mk [leaf "set accounting=yes"])])]
 
 example : WF .ros sampleR = true := by decide
+/-- Cisco: `address-family` rows with and without children, followed by siblings and shallower rows -/
+private def sampleC : Cfg :=
+  .mk [("router bgp 1", .mk [("address-family ipv4", .mk [leaf "neighbor x activate"]), leaf "address-family ipv6",
+         leaf "bgp log-neighbor-changes"]), leaf "exit", leaf "interface a"]
+
+example : WF .cisco sampleC = true := by decide
 example : IndentOk (some (blanks 3)) := Or.inr ⟨3, by omega, rfl⟩
-/-- the witnesses are inside the full-strength domains and outside the partial ones -/
-example : WFfull .cisco Lemmas.ciscoWitness = true ∧ WF .cisco Lemmas.ciscoWitness = false := by decide
-example : WFfull .ros Lemmas.rosWitness = true ∧ WF .ros Lemmas.rosWitness = false := by decide
+/-- the two old-rule witnesses are inside today's domains -/
+example : WF .cisco Lemmas.ciscoWitness = true ∧ WF .ros Lemmas.rosWitness = true := by decide
+/-- the remaining exclusions are real: the `/user ssh-keys` section is post-processed by `split` -/
+example : WF .ros (.mk [("user", .mk [("ssh-keys", .mk [leaf "r"])])]) = false := by decide
 
 end Annet.FormatSplit
